@@ -14,7 +14,7 @@ META = {
                  "and through a FormatFS; the Open/Read log and outcome class are judged by a TLC Trace spec",
     "level": "model_checking",
     "level_text": "TLC checks, for every file graph of the space (quick: 3 layouts of 3 files at directory depths "
-                  "0-2 with <=3 references over 3 kinds x 4 path forms, every single reference over 38 path forms x "
+                  "0-2 with <=3 references over 3 kinds x 4 path forms, every single reference over 35 path forms (19 valid, 16 invalid) x "
                   "4 kinds x 3 depths; thorough: 4 kinds x 5 path forms, 4-file layouts with <=4 references, "
                   "<=5-reference render graphs, all pairs of valid path forms), that the transcribed expansion "
                   "algorithm terminates (depth <= number of files, step bound, eventually an outcome), opens only "
@@ -111,6 +111,15 @@ def selftest(allobs):
         e = json.loads(json.dumps(ok2)); e["id"] = 990000005
         e["ret"] = False; e["cls"] = "hang"                                  # the build did not return
         out.append((e, "terminates"))
+    esc = next((o for o in allobs if o["cls"] == "builderror" and b"does not exist" in bytes(o["msg"]) and len(o["refs"]) == 1
+                and len(o["opens"]) == 1 and o["refs"][0]["k"] in ("render", "extends")), None)
+    if esc:
+        f = json.loads(json.dumps(esc)); f["id"] = 990000006
+        f["cls"] = "nil"; f["msg"] = []                                      # a root-escaping reference built without error
+        out.append((f, "escape-is-error"))
+        h = json.loads(json.dumps(esc)); h["id"] = 990000007
+        h["msg"] = rig.s2b("a.html:1:4: syntax error: something else")      # ... or reported as another class of error
+        out.append((h, "escape-not-found-class"))
     if cyc:
         d = json.loads(json.dumps(cyc)); d["id"] = 990000004
         d["cls"] = "nil"; d["msg"] = []                                      # a cycle built without error
@@ -188,7 +197,7 @@ def run(ctx, only_cases=None):
     # 5. sensitivity self-test (every run): one corrupted observation per clause must be rejected
     st = selftest(allobs)
     if only_cases is None:
-        if len(st) < 5:
+        if len(st) < 7:
             raise Infra("sensitivity self-test: no suitable observations to corrupt")
     if st:
         b3, _, _ = judge(ctx, "trace_selftest", [o for o, _ in st])
